@@ -342,12 +342,21 @@ pub fn observe_with(ctx: &mut Ctx, rtxn: &RoTxn, db: RawDb, idx: u16, metric: Me
     }));
     let other = ALL_METRICS[(ALL_METRICS.iter().position(|m| *m == metric).unwrap() + 3) % 7];
     let open_other = with_metric!(other, D, { open_class::<D>(rtxn, idx, db) });
+    // and under every other metric (opening only reads the metadata): [[metric, result class], ...]
+    let open_others: Vec<Value> = ALL_METRICS
+        .iter()
+        .filter(|m| **m != metric)
+        .map(|m| {
+            let m = *m;
+            json!([m.short(), with_metric!(m, D, { open_class::<D>(rtxn, idx, db) })])
+        })
+        .collect();
     match r {
         Ok((contains, vecs, iter, iter_err, empty, need_build, open, rd)) => json!({
             "ok": true, "contains": contains, "vecs": vecs, "iter": iter, "iter_err": iter_err,
-            "empty": empty, "need_build": need_build, "open": open, "open_other": open_other, "other": other.short(), "rd": rd,
+            "empty": empty, "need_build": need_build, "open": open, "open_other": open_other, "other": other.short(), "open_others": open_others, "rd": rd,
         }),
-        Err(p) => json!({"ok": false, "panic": panic_msg(p), "open_other": open_other, "other": other.short()}),
+        Err(p) => json!({"ok": false, "panic": panic_msg(p), "open_other": open_other, "other": other.short(), "open_others": open_others}),
     }
 }
 
